@@ -35,19 +35,19 @@ func init() {
 	concSpec("C04", &ConcOpts{
 		Profile: Profile{Prop: "C04", NoRef: true, Keys: [2]int{3, 14}},
 		OpW:     sizeOps, Tasks: [2]int{2, 4}, OpsPer: [2]int{6, 30}, Prefill: [2]int{0, 10},
-		Executors: []string{"default", "default", "sync", "queued"},
+		Executors:  []string{"default", "default", "sync", "queued"},
 		NonTrivial: func(o *ConcOutcome) bool { return o.Switches > 4 && o.Probes["bounded"] > 0 },
 	})
 	concSpec("C05", &ConcOpts{
 		Profile: Profile{Prop: "C05", NoRef: true, Keys: [2]int{3, 14}},
 		OpW:     sizeOps, Tasks: [2]int{2, 4}, OpsPer: [2]int{6, 30}, Prefill: [2]int{0, 10},
-		Executors: []string{"default", "default", "sync", "queued"},
+		Executors:  []string{"default", "default", "sync", "queued"},
 		NonTrivial: func(o *ConcOutcome) bool { return o.Switches > 4 },
 	})
 	concSpec("C06", &ConcOpts{
 		Profile: Profile{Prop: "C06", NoRef: true, Keys: [2]int{2, 10}},
 		OpW:     sizeOps, Tasks: [2]int{2, 4}, OpsPer: [2]int{5, 25}, Prefill: [2]int{0, 8},
-		Executors: []string{"default", "sync", "queued"},
+		Executors:  []string{"default", "sync", "queued"},
 		NonTrivial: func(o *ConcOutcome) bool { return o.Switches > 4 && o.Probes["atomic-events"] > 0 },
 	})
 	// C08: single flight + termination under loader faults.
